@@ -45,4 +45,15 @@ PROPS = {
   'explanation': 'C02_layout_ser/deser tie the regenerated tables to the specification; round trips, byte layout, length and rejection are proved for all headers / all byte strings; '
                  'the table interpreter is compared byte-for-byte and field-for-field with SerializeHeader/DeserializeHeader including the panic on short input.',
  },
+ 'C04': {
+  'uses_generated': True,
+  'rule': '(a) findTile on generated directories (0..12 entries, runs, pointers, shared offsets, ids up to and beyond 2^63) at boundary queries '
+          '(first/last id of each run, one before/after, offsets of 2^8/2^16/2^32/2^33 from each entry); (b) whole archives built by the harness '
+          '(root-only to three leaf levels, mixed directories, uneven depth, gzip/none, dense and sparse, high zooms) queried through Server.Get and the CLI tile '
+          'command at the same boundary ids. Non-trivial: directory with > 1 entry / archive with >= 1 leaf level; distinct by case line',
+  'trusted_base': [GZIP, 'modelled, not verified: the event loop/caching between handler and bucket (C08/C09), net/http'],
+  'assumptions': ['archives are well formed (wftree): directories strictly ascending, runs end before the next entry, leaf ids between the pointer id and the next entry id, at most three leaf levels'],
+  'explanation': 'C04_find_tile_spec and C04_walk(_server) hold for every well-formed tree and every id < 2^63; the loop bounds of both Go walks are regenerated from the source; '
+                 'server and CLI responses are compared with the model and with the generator ground truth.',
+ },
 }
